@@ -169,6 +169,27 @@ var Catalogue = []Item{
 	{"map.commaok-assign", "func mca%d() uint64 {\n\tm := make(map[uint64]uint64)\n\tm[1] = 5\n\tvar v uint64\n\tvar ok bool\n\tv, ok = m[1]\n\tif ok {\n\t\treturn v\n\t}\n\treturn 0\n}\n", "return mca%d()", "uint64"},
 	{"type.grouped", "type (\n\ttga%d struct {\n\t\tx uint64\n\t}\n\ttgb%d struct {\n\t\ty uint64\n\t}\n)\n\nfunc tg%dg() uint64 {\n\treturn tga%d{x: 1}.x + tgb%d{y: 2}.y\n}\n", "return tg%dg()", "uint64"},
 	{"goto.loop-tail", "func glt%d(n uint64) uint64 {\n\tvar t uint64 = 0\n\tfor i := uint64(0); i < n; i++ {\n\t\tt = t + i\n\t\tgoto next\n\tnext:\n\t}\n\treturn t\n}\n", "return glt%d(3)", "uint64"},
+	{"int.int32-widen", "func i32w%d(x uint64) uint64 {\n\ty := int32(x)\n\treturn uint64(y)\n}\n", "return i32w%d(2147483648)", "uint64"},
+	{"int.int8-widen", "func i8w%d(x uint64) uint64 {\n\ty := int8(x)\n\treturn uint64(uint32(y))\n}\n", "return i8w%d(200)", "uint64"},
+	{"int.int64-compare", "func i64c%d(x uint64) uint64 {\n\ty := int64(x)\n\tif y < 0 {\n\t\treturn 1\n\t}\n\treturn 2\n}\n", "return i64c%d(9223372036854775808)", "uint64"},
+	{"int.int64-shift", "func i64s%d(x uint64) uint64 {\n\ty := int64(x)\n\treturn uint64(y >> 4)\n}\n", "return i64s%d(18446744073709551600)", "uint64"},
+	{"int.int64-div", "func i64d%d(x uint64) uint64 {\n\ty := int64(x)\n\treturn uint64(y / 2)\n}\n", "return i64d%d(18446744073709551614)", "uint64"},
+	{"assign.tuple-swap-elems", "func tse%d() uint64 {\n\ts := make([]uint64, 2)\n\ts[0] = 1\n\ts[1] = 2\n\ts[0], s[1] = s[1], s[0]\n\treturn s[0]*10 + s[1]\n}\n", "return tse%d()", "uint64"},
+	{"assign.tuple-fib", "func tfb%d(n uint64) uint64 {\n\tvar a uint64 = 0\n\tvar b uint64 = 1\n\tfor i := uint64(0); i < n; i++ {\n\t\ta, b = b, a+b\n\t}\n\treturn a\n}\n", "return tfb%d(10)", "uint64"},
+	{"partial.get-short", "func pgs%d(n uint64) uint64 {\n\tb := make([]byte, 12)\n\tb[0] = 7\n\tb[6] = 9\n\treturn machine.UInt64Get(b[:n])\n}\n", "return pgs%d(5)", "uint64"},
+	{"partial.get32-short", "func pgt%d(n uint64) uint32 {\n\tb := make([]byte, 12)\n\tb[0] = 7\n\tb[3] = 9\n\treturn machine.UInt32Get(b[:n])\n}\n", "return pgt%d(3)", "uint32"},
+	{"partial.put-short", "func pps%dx(n uint64) uint64 {\n\tb := make([]byte, 12)\n\tmachine.UInt64Put(b[:n], 258)\n\treturn uint64(b[0]) + uint64(b[1])\n}\n", "return pps%dx(6)", "uint64"},
+	{"partial.index-oob", "func pio%d(n uint64) uint64 {\n\ts := make([]uint64, 3)\n\treturn s[n]\n}\n", "return pio%d(3)", "uint64"},
+	{"partial.nil-map-insert", "func pnm%d() uint64 {\n\tvar m map[uint64]uint64\n\tm[1] = 2\n\treturn m[1]\n}\n", "return pnm%d()", "uint64"},
+	{"partial.div-zero", "func pdz%d(x uint64, y uint64) uint64 {\n\treturn x / y\n}\n", "return pdz%d(5, 0)", "uint64"},
+	{"partial.nil-deref", "func pnd%d() uint64 {\n\tvar p *uint64\n\treturn *p\n}\n", "return pnd%d()", "uint64"},
+	{"partial.subslice-oob", "func pso%d(n uint64) uint64 {\n\ts := make([]uint64, 3)\n\tt := s[1:n]\n\treturn uint64(len(t))\n}\n", "return pso%d(7)", "uint64"},
+	{"log.panicf-taken", "func lpt%d(y uint64) uint64 {\n\tif y == 0 {\n\t\tlog.Panicf(\"y is %%v\", y)\n\t}\n\treturn 7\n}\n", "return lpt%d(0)", "uint64"},
+	{"log.panic-taken", "func lpn%d(y uint64) uint64 {\n\tif y == 0 {\n\t\tlog.Panic(\"zero\")\n\t}\n\treturn 7\n}\n", "return lpn%d(0)", "uint64"},
+	{"panic.taken", "func pnt%d(y uint64) uint64 {\n\tif y == 0 {\n\t\tpanic(\"zero\")\n\t}\n\treturn 7\n}\n", "return pnt%d(0)", "uint64"},
+	{"incdec.global", "var idg%dv uint64 = 3\n\nfunc idg%d() uint64 {\n\tidg%dv++\n\treturn idg%dv\n}\n", "return idg%d()", "uint64"},
+	{"generic.recursive", "func grc%d[T any](x T, n uint64) T {\n\tif n == 0 {\n\t\treturn x\n\t}\n\treturn grc%d(x, n-1)\n}\n", "return grc%d[uint64](9, 3)", "uint64"},
+	{"literal.u64-top-bit", "func ltb%d() uint64 {\n\tvar x uint64 = 0x8000000000000000\n\treturn x/2 + 18446744073709551615%%7\n}\n", "return ltb%d()", "uint64"},
 	{"generic.func", "func gf%d[T any](x T, y T, first bool) T {\n\tif first {\n\t\treturn x\n\t}\n\treturn y\n}\n", "return gf%d[uint64](3, 4, false)", "uint64"},
 	{"init.func", "var in%dv uint64\n\nfunc in%d() uint64 {\n\treturn in%dv\n}\n", "return in%d()", "uint64"},
 	{"blank.assign-call", "func ba%dh(p *uint64) uint64 {\n\t*p = 3\n\treturn 1\n}\n\nfunc ba%d() uint64 {\n\tp := new(uint64)\n\t_ = ba%dh(p)\n\treturn *p\n}\n", "return ba%d()", "uint64"},
@@ -178,17 +199,28 @@ var Catalogue = []Item{
 // RejectedAtPin: catalogue constructs that the pinned translator answers with a conversion error. They are the
 // boundary of the accepted subset: a translator that starts to accept one of them has enlarged the subset, and the
 // construct then falls under "accepted programs keep their meaning" (C01) as well as under C02.
-var RejectedAtPin = map[string]bool{"append.multi": true, "array": true, "assign.complex-lvalue": true, "assign.define-captured": true, "assign.define-in-loop": true, "assign.define-local": true, "assign.param": true, "assign.swap": true, "break.nested-elseless": true, "closure.loopvar-captured-later": true, "const.iota": true, "const.untyped-global": true, "continue.nested-elseless": true, "defer": true, "defer.early-return": true, "defer.lifo": true, "defer.return-order": true, "define.multi": true, "for.init-assign-param": true, "for.init-assign-var": true, "global.var-mutated": true, "go.args": true, "goto": true, "goto.loop-tail": true, "if.init": true, "if.init-shadow": true, "if.init-then-use-outer": true, "incdec.elem": true, "incdec.field": true, "init.func": true, "int.signed": true, "label.break-outer": true, "label.continue-outer": true, "literal.huge": true, "literal.huge2": true, "lookalike.len": true, "map.literal": true, "method.on-named-slice": true, "named-results": true, "named-results.explicit": true, "nil.func": true, "op.andnot": true, "op.unary-minus": true, "op.unary-plus": true, "opassign.andnot": true, "opassign.div": true, "opassign.mul": true, "opassign.rem": true, "opassign.shl": true, "opassign.shr": true, "range.assign-existing": true, "range.int": true, "results.blank-named": true, "results.named-shadowed": true, "return.else-after-early": true, "return.elseif-chain-elseless": true, "return.in-loop": true, "return.nested-elseless": true, "return.nested-elseless-loop": true, "slice.3index": true, "slice.full": true, "slice.literal-multi": true, "slice.subslice-cap": true, "string.hex-escape": true, "string.index": true, "string.quote-escape": true, "string.range": true, "struct.anonymous": true, "struct.embedded": true, "struct.unkeyed": true, "switch": true, "switch.break-in-loop": true, "switch.break-under-if": true, "switch.continue-in-loop": true, "switch.default-first": true, "switch.fallthrough": true, "switch.tag-effect-once": true, "switch.tagless": true, "type.grouped": true}
+var RejectedAtPin = map[string]bool{"append.multi": true, "array": true, "assign.complex-lvalue": true, "assign.define-captured": true, "assign.define-in-loop": true, "assign.define-local": true, "assign.param": true, "assign.swap": true, "assign.tuple-fib": true, "assign.tuple-swap-elems": true, "break.nested-elseless": true, "closure.loopvar-captured-later": true, "const.iota": true, "const.untyped-global": true, "continue.nested-elseless": true, "defer": true, "defer.early-return": true, "defer.lifo": true, "defer.return-order": true, "define.multi": true, "for.init-assign-param": true, "for.init-assign-var": true, "global.var-mutated": true, "go.args": true, "goto": true, "goto.loop-tail": true, "if.init": true, "if.init-shadow": true, "if.init-then-use-outer": true, "incdec.elem": true, "incdec.field": true, "incdec.global": true, "init.func": true, "int.int32-widen": true, "int.int64-compare": true, "int.int64-div": true, "int.int64-shift": true, "int.int8-widen": true, "int.signed": true, "label.break-outer": true, "label.continue-outer": true, "literal.huge": true, "literal.huge2": true, "lookalike.len": true, "map.literal": true, "method.on-named-slice": true, "named-results": true, "named-results.explicit": true, "nil.func": true, "op.andnot": true, "op.unary-minus": true, "op.unary-plus": true, "opassign.andnot": true, "opassign.div": true, "opassign.mul": true, "opassign.rem": true, "opassign.shl": true, "opassign.shr": true, "range.assign-existing": true, "range.int": true, "results.blank-named": true, "results.named-shadowed": true, "return.else-after-early": true, "return.elseif-chain-elseless": true, "return.in-loop": true, "return.nested-elseless": true, "return.nested-elseless-loop": true, "slice.3index": true, "slice.full": true, "slice.literal-multi": true, "slice.subslice-cap": true, "string.hex-escape": true, "string.index": true, "string.quote-escape": true, "string.range": true, "struct.anonymous": true, "struct.embedded": true, "struct.unkeyed": true, "switch": true, "switch.break-in-loop": true, "switch.break-under-if": true, "switch.continue-in-loop": true, "switch.default-first": true, "switch.fallthrough": true, "switch.tag-effect-once": true, "switch.tagless": true, "type.grouped": true}
 
 // Imports lists the standard-library imports an item needs (found by inspection of its text).
 func (it Item) Imports() []string {
 	var out []string
-	for _, p := range []string{"sync", "fmt", "errors", "sort", "strings", "unsafe", "math", "time", "os"} {
+	for _, p := range []string{"sync", "fmt", "errors", "sort", "strings", "unsafe", "math", "time", "os", "log"} {
 		if strings.Contains(it.Decls+it.Entry, p+".") {
 			out = append(out, p)
 		}
 	}
 	return out
+}
+
+// AddImports inserts import declarations for the given paths (unless already imported) after the package clause.
+func AddImports(src string, paths []string) string {
+	for _, p := range paths {
+		if strings.Contains(src, "\""+p+"\"\n") {
+			continue
+		}
+		src = strings.Replace(src, "package gen\n\n", "package gen\n\nimport \""+p+"\"\n\n", 1)
+	}
+	return src
 }
 
 // Instantiate replaces every %d with n and returns (declarations, entry function text).
